@@ -23,9 +23,10 @@ MODULE = "checks.c05"
 def lattice(tier):
     """(start, dt, K, with 3-step chains)"""
     if tier == "quick":
-        return [(0.0, 0.1, 1000, False), (0.0, 0.25, 1000, True), (1.0, 0.5, 1000, True), (0.0, 0.2, 100, False)]
+        return [(0.0, 0.1, 1000, False), (0.0, 0.25, 1000, True), (1.0, 0.5, 1000, True), (0.0, 0.2, 100, False),
+                (0.5, 1.0, 1000, True), (0.25, 0.5, 1000, True), (0.1, 0.1, 1000, False)]
     pts = []
-    for start in (0.0, 1.0, 2.5, 1990.0):
+    for start in (0.0, 1.0, 2.5, 1990.0, 0.25):
         for dt in (1.0, 0.5, 0.25, 0.2, 0.1, 0.05, 0.04, 0.025, 0.125):
             binary = dt in (1.0, 0.5, 0.25, 0.125)
             pts.append((start, dt, 10000 if binary else 1000, binary or start == 0.0))
